@@ -18,7 +18,7 @@ RULE = ("grid: curves 1..40 x rows {1,2,3} x wrap {F,T} x engine {numpy, normal}
         "the printed digit, long mantissas, samples next to the NULL value, NULL-equal index samples), NaN density 0..60% off the index, options from "
         "version x wrap x fmt x column_fmt x len_numeric_field x spacer x lhs_spacer x data_width x mnemonics_header x "
         "data_section_header. distinct = distinct (curve count, row class, option tuple, value classes, engine); "
-        "non-trivial = (>= 2 curves or >= 2 rows) and >= 1 finite non-integer sample Added later: a second write after in-place edits, second-generation writes of the re-read object, digit-named curves, data_width equal to the widest field (+0..3) x every lhs_spacer, the object's own WRAP item in six spellings with wrap left to write().")
+        "non-trivial = (>= 2 curves or >= 2 rows) and >= 1 finite non-integer sample Added later: a second write after in-place edits, second-generation writes of the re-read object, digit-named curves, data_width equal to the widest field (+0..3) x every lhs_spacer, the object's own WRAP item in six spellings with wrap left to write(). Hunter rounds: NULL values that are blank, text, of several words, a numpy.float32, or absent altogether; short %g / %e formats next to short-mantissa NULLs (-1000, 1e30); samples next to the largest float.")
 ASSUMPTIONS = [
     "spacer contains at least one blank; data_width is at least the widest field in most cases (exactly widest field + 0..3 in the grid and a quarter of the random cases) and *below* it in the 'narrow' cases, where a field must stand alone on an over-long line",
     "no finite non-index sample is *equal* to NULL, except in the three witnesses of the known finding; samples that round onto NULL under the chosen format are generated",
